@@ -71,6 +71,8 @@ def lb_config(balancers=('heap', 'aperture')):
       'aperture': aperture,
       # the provider names one of the members' additional endpoints (zk://...#name style) or uses the service endpoint
       'endpoint_name': st.sampled_from([None, None, 'aux']),
+      # 0 = every endpoint once; k > 0 = one endpoint appears twice in the initial list
+      'initial_dup': st.sampled_from([0, 0, 0, 1, 2, 5]),
   })
 
 
